@@ -152,7 +152,9 @@ def run_form(files):
                 with open(p, "rb") as f:
                     tree[os.path.relpath(p, co)] = f.read().decode("latin-1")
     rows = driver.read_index(os.path.join(co, "version_index.sqlite"))
-    return {"exit": r.exit, "exc": repr(r.exc), "out": r.out_text, "err": r.err_text, "spawns": spawns, "tree": tree, "rows": rows}
+    import re
+    ran = re.compile(r"\(Ran for [^)]*\)")
+    return {"exit": r.exit, "exc": repr(r.exc), "out": ran.sub("(Ran for T)", r.out_text), "err": r.err_text, "spawns": spawns, "tree": tree, "rows": rows}
 
 
 def run_case(case, found, res):
